@@ -252,7 +252,7 @@ def periodic(tier, seed, n=None):
         pattern = []
         for _ in range(r.randrange(3, 6)):
             kind = r.random()
-            if kind < 0.12:
+            if kind < 0.12 and not (mode in (1, 2) and i % 2 == 0):  # (an invalidation would reset the index every round)
                 pattern.append(("unsafe", r.choice([0, 1]), None))
             else:
                 pattern.append(("get", r.choice([0, 0, 1]), r.choice(sels)))
@@ -264,8 +264,11 @@ def periodic(tier, seed, n=None):
                 else:
                     v, vs = r.choice(varys)
                     dsk = elapsed if mode == 2 else 0  # mode 2: the Date of every answer is the same instant
-                    a = ans(ccp=1, ma=r.choice([0, 2, 50]), vary=v, vs=vs, etag=1, swr=r.choice([NONE, 5]), dsk=dsk)
-                    b = ans(k="304", st=304, ccp=1, ma=r.choice([2, 50]), etag=1, dsk=dsk) if r.random() < 0.5 else a
+                    ma = r.choice([0, 2, 50])
+                    if mode in (1, 2) and i % 2 == 0:
+                        v, vs, ma = [], 1, 0  # an origin that always says "Vary: *" and nothing is ever fresh
+                    a = ans(ccp=1, ma=ma, vary=v, vs=vs, etag=1, swr=r.choice([NONE, 5]), dsk=dsk)
+                    b = ans(k="304", st=304, ccp=1, ma=r.choice([2, 50]), etag=1, dsk=dsk) if r.random() < 0.5 and vs == 0 else a
                     steps.append({"op": "req", "rq": rq(u=u, sel=sel), "ans": [b, a]})
                 d = 0 if mode == 1 else r.choice([0, 1, 3])
                 elapsed += d
